@@ -699,13 +699,12 @@ pub fn eval_pair(
     real_b: &WarpState,
     root_b: &[u8; 32],
 ) -> Eval {
-    let tags = || flag_names(pair_flags(a, b)).join(",");
     let ops = match mc::catch(|| hooks::tick_patch::diff_state(real_a, real_b)) {
         Ok(o) => o,
         Err(p) => {
             return Eval {
                 verdict: Verdict::Bad(
-                    vec![format!("diff-apply:panic-in-diff_state:{}:{}", sanitize(&p), tags())],
+                    vec![format!("diff-apply:panic-in-diff_state:{}", sanitize(&p))],
                     false,
                 ),
                 patch: None,
@@ -740,13 +739,12 @@ pub fn apply_and_judge(
     patch: &WarpTickPatchV1,
     phase: &str,
 ) -> (Verdict, Option<WarpState>) {
-    let tags = || flag_names(pair_flags(a, b)).join(",");
     let mut st = real_a.clone();
     let res = mc::catch(|| patch.apply_to_state(&mut st));
     match res {
         Err(p) => (
             Verdict::Bad(
-                vec![format!("{phase}:panic-in-apply:{}:{}", sanitize(&p), tags())],
+                vec![format!("{phase}:panic-in-apply:{}", sanitize(&p))],
                 false,
             ),
             None,
@@ -756,9 +754,8 @@ pub fn apply_and_judge(
             let verdict = match u.coherent(&st) {
                 Err(msg) => {
                     let mut sigs = vec![format!(
-                        "{phase}:ok-but-incoherent-store:{}:{}",
-                        sanitize(&msg),
-                        tags()
+                        "{phase}:ok-but-incoherent-store:{}",
+                        sanitize(&msg)
                     )];
                     if let Ok(got) = u.read(&st) {
                         for s in discrepancy_sigs(a, b, &got) {
@@ -779,10 +776,7 @@ pub fn apply_and_judge(
                         )
                     } else if &root != root_b {
                         Verdict::Bad(
-                            vec![format!(
-                                "{phase}:ok-same-content-but-state-root-differs:{}",
-                                tags()
-                            )],
+                            vec![format!("{phase}:ok-same-content-but-state-root-differs")],
                             false,
                         )
                     } else {
